@@ -140,6 +140,10 @@ def _install():
             # (the QPut event is logged by the queue's deque at the very moment of the append - see `name_queues`: an event
             # logged here, before the real put, could be overtaken by another worker's put when `emit` is a scheduling
             # point, as it is under the guided strategy)
+            if nm == 'in' and who()[0] == 'x':
+                # the caller hands the input to the servlet tree: by then the request must be in the ledger (the window
+                # between the two statements contains no synchronisation point, so it is checked on the order of events)
+                detsched.emit('InPut', u=small_uid(item[0]))
             if _ctx.get('hop'):
                 # emulate a PROCESS queue: the item goes through a pickle round trip (a RemoteException wrapper arrives as
                 # the original exception with its remote traceback attached, exactly as across a real process boundary)
